@@ -306,7 +306,11 @@ def _rand_op(rng, shape, model):
             idx = [int(rng.integers(-I, I)) for I in shape]
         if grow and rng.random() < 0.3:
             idx.append(int(rng.integers(0, 2)))
-        return {"k": "set_full", "idx": idx, "v": float(rng.choice(VALS))}
+        op = {"k": "set_full", "idx": idx, "v": float(rng.choice(VALS))}
+        if N == 1 and len(idx) == 1 and idx[0] >= 0 and rng.random() < 0.6:
+            # a one-way sparse tensor also takes the position by itself (not wrapped in a tuple), at or past the extent too
+            op["bare"] = ["int", "npint"][int(rng.integers(0, 2))]
+        return op
     if c < 0.72 and rng.random() < 0.08:
         # the receiver itself as the right-hand side: onto its own extent, or shifted by one along some modes (which grows those modes)
         offs = [int(rng.integers(0, 2)) if rng.random() < 0.5 else 0 for _ in shape]
@@ -499,6 +503,7 @@ def _features_for(op, model_before):
         f["grows"] = M is None or len(op["idx"]) != M.ndim or any(i >= s for i, s in zip(op["idx"], M.shape))
         f["order_growth"] = M is not None and len(op["idx"]) > M.ndim
         f["zero_value"] = op["v"] == 0
+        f["bare_position"] = str(op.get("bare")) if (M is not None and M.ndim == 1 and len(op["idx"]) == 1 and op["idx"][0] >= 0) else "None"
     if k in ("get_lin", "set_lin"):
         f["form"] = op["form"]
     return f
@@ -633,9 +638,13 @@ def _exec_op(ctx, op, T, S, model):
     elif k == "set_full":
         idx = tuple(op["idx"])
         v = op["v"]
+        bare = op.get("bare") if (len(model.shape) == 1 and len(idx) == 1 and idx[0] >= 0) else None
         _apply_model(model, op)
         for holder, X, cls in hs:
-            _do(ctx, f"{cls}.__setitem__", holder, lambda X=X: X.__setitem__(idx, v))
+            kx = idx
+            if bare and holder == "sparse":
+                kx = int(idx[0]) if bare == "int" else np.int64(idx[0])
+            _do(ctx, f"{cls}.__setitem__", holder, lambda X=X, kx=kx: X.__setitem__(kx, v))
         _cmp_state(ctx, "__setitem__", T, S, model)
     elif k == "set_region":
         key = _mk_key(op["key"])
